@@ -460,9 +460,12 @@ theorem list_struct_wf (m : Msg) (l : ListP) (i : Int) (hw : ListWF m l) (hi : 0
     · simp only; split <;> omega
     · intro h; simp only; rw [if_neg (by omega)]; omega
 
-/-- `List.primitiveElem` for `0 ≤ i < Len()`: an address whose whole element lies inside the list -/
+/-- `List.primitiveElem` for `0 ≤ i < Len()`: an address whose whole element (for a pointer read from a
+    struct list: the element's whole pointer section) lies inside the list -/
 theorem primitiveElem_ok (m : Msg) (l : ListP) (i : Int) (exp : ObjectSize) (hw : ListWF m l) (hi : 0 ≤ i ∧ i < l.length) :
-    Safe (l.primitiveElem i exp) (fun a => 0 ≤ a ∧ a + (l.size.DataSize + 8 * l.size.PointerCount) ≤ m.segLen l.seg ∧
+    Safe (l.primitiveElem i exp) (fun a => 0 ≤ a ∧
+      a + (if l.flags = isCompositeList ∧ exp.PointerCount > 0 then 8 * l.size.PointerCount
+           else l.size.DataSize + 8 * l.size.PointerCount) ≤ m.segLen l.seg ∧
       l.flags ≠ isBitList ∧ (l.flags ≠ isCompositeList → l.size = exp) ∧
       (l.flags = isCompositeList → exp.DataSize ≤ l.size.DataSize ∧ exp.PointerCount ≤ l.size.PointerCount)) := by
   obtain ⟨hsz, h0, hl0, hl1, hb1, hb2, hfl⟩ := hw
@@ -485,11 +488,28 @@ theorem primitiveElem_ok (m : Msg) (l : ListP) (i : Int) (exp : ObjectSize) (hw 
     generalize l.length * (l.size.DataSize + 8 * l.size.PointerCount) = q at *
     have hcond : ¬ (l.off + p > 4294967288 ∨ l.off + p < 0) := by omega
     rw [if_neg hcond]
-    simp only [Bool.not_true, Bool.false_eq_true, ↓reduceIte, Safe]
-    refine ⟨by omega, by omega, hnb, hnc, ?_⟩
-    intro hcomp
-    have := hcc hcomp
-    omega
+    simp only [Bool.not_true, Bool.false_eq_true, ↓reduceIte]
+    obtain ⟨a, b, c, d⟩ := hsz
+    by_cases hup : l.flags = isCompositeList ∧ exp.PointerCount > 0
+    · rw [if_pos hup]
+      have hu1 : InU32 (l.off + p) := by unfold InU32; omega
+      have hu2 : InU32 l.size.DataSize := by unfold InU32; omega
+      rw [addSize_spec (l.off + p) l.size.DataSize hu1 hu2]
+      have hc2 : ¬ (l.off + p + l.size.DataSize > 4294967288) := by omega
+      rw [if_neg hc2]
+      simp only [Bool.not_true, Bool.false_eq_true, ↓reduceIte, Safe]
+      rw [if_pos hup]
+      refine ⟨by omega, by omega, hnb, hnc, ?_⟩
+      intro hcomp
+      have := hcc hcomp
+      omega
+    · rw [if_neg hup]
+      simp only [Safe]
+      rw [if_neg hup]
+      refine ⟨by omega, by omega, hnb, hnc, ?_⟩
+      intro hcomp
+      have := hcc hcomp
+      omega
 
 /-- `PointerList.At(i)` for `0 ≤ i < Len()` -/
 theorem list_ptrAt_safe (m : Msg) (l : ListP) (i rl : Int) (hm : MsgOK m) (hw : ListWF m l) (hs : SegOK m l.seg)
@@ -503,12 +523,20 @@ theorem list_ptrAt_safe (m : Msg) (l : ListP) (i rl : Int) (hm : MsgOK m) (hw : 
     rw [hp] at hpe; simp only [Safe] at hpe
     obtain ⟨ha0, ha1, hnb, hnc, hcc⟩ := hpe
     simp only
-    have hsz8 : 8 ≤ l.size.DataSize + 8 * l.size.PointerCount := by
+    have hsz8 : addr + 8 ≤ m.segLen l.seg := by
       obtain ⟨⟨a, b, c, d⟩, _⟩ := hw
       by_cases hcomp : l.flags = isCompositeList
-      · have := hcc hcomp; omega
-      · have := hnc hcomp; rw [this]; show (8:Int) ≤ 0 + 8 * 1; omega
-    exact readPtr_wf m l.seg addr l.depth rl hm hs ha0 (by omega) hd hrl
+      · have := hcc hcomp
+        rw [if_pos ⟨hcomp, by show (1:Int) > 0; omega⟩] at ha1
+        have h1 : (1:Int) ≤ l.size.PointerCount := this.2
+        omega
+      · have := hnc hcomp
+        rw [if_neg (by intro h; exact hcomp h.1)] at ha1
+        rw [this] at ha1
+        have : (({ DataSize := 0, PointerCount := 1 } : ObjectSize).DataSize + 8 * ({ DataSize := 0, PointerCount := 1 } : ObjectSize).PointerCount) = 8 := by
+          show (0:Int) + 8 * 1 = 8; omega
+        omega
+    exact readPtr_wf m l.seg addr l.depth rl hm hs ha0 hsz8 hd hrl
 
 /-- `UInt8List.At … UInt64List.At` for `0 ≤ i < Len()` (a list of another element size reads as 0) -/
 theorem list_uintAt_safe (m : Msg) (l : ListP) (i : Int) (w : Nat) (hm : MsgOK m) (hw : ListWF m l)
@@ -521,10 +549,13 @@ theorem list_uintAt_safe (m : Msg) (l : ListP) (i : Int) (w : Nat) (hm : MsgOK m
     rw [hp] at hpe; simp only [Safe] at hpe
     obtain ⟨ha0, ha1, hnb, hnc, hcc⟩ := hpe
     simp only
+    rw [if_neg (by intro h; exact absurd h.2 (by show ¬ ((0:Int) > 0); omega))] at ha1
     have hszw : (w : Int) ≤ l.size.DataSize + 8 * l.size.PointerCount := by
       obtain ⟨⟨a, b, c, d⟩, _⟩ := hw
       by_cases hcomp : l.flags = isCompositeList
-      · have := hcc hcomp; omega
+      · have := hcc hcomp
+        have h1 : (w:Int) ≤ l.size.DataSize := this.1
+        omega
       · have := hnc hcomp; rw [this]; show (w:Int) ≤ w + 8 * 0; omega
     obtain ⟨v, hv, _⟩ := readUint_ok m l.seg addr w hm ha0 hww.2 (by omega)
     rw [hv]; simp only [Safe]; omega
